@@ -56,6 +56,26 @@ def boundary_cases(ck, tier):
     c['budget_mode'] = ['hi-bites', 'lo-bites', 'pair-median-lo', 'pair-median-hi', 'pair-median-lo'][j % 5]
     c['history'] = 'longer-window-first'
     out.append(c)
+  # a geo that enters the panel late (no rows on the first half of the dates): its share counts the missing days as zeros,
+  # and the volume-ratio / share constraints are tight
+  for j in range(common.sz(tier, 8, 60)):
+    c = search.gen_case(ck.seed * 19 + 800 + j, tier, max_geos=5)
+    n, nd = len(c['rows']), len(c['rows'][0])
+    if n < 3:
+      continue
+    rj = __import__('random').Random(ck.seed * 19 + 800 + j)
+    g, k = rj.randrange(n), nd // 2
+    c['rows'][g] = [0.0] * k + [abs(v) + 1.0 for v in c['rows'][g][k:]]
+    c['missing_head'] = [g, k]
+    c['elig'] = {str(i + 1): rj.choice(['ctx', 'ctx', 'ct', 'cx', 'tx']) for i in range(n)}
+    c['par'] = {'n_test': 3, 'iroas': 1.0, 'n_designs': 50, 'n_pretest_max': 90,
+                'volume_ratio_tolerance': rj.choice([0.1, 0.2, 0.35])}
+    c['want_share'] = j % 2 == 0
+    c['want_budget'] = False
+    c['history'] = None
+    for key in ('zero_sum_geo', 'drift', 'int_response', 'float_valued_integers', 'window_bound_above_history', 'non_default_statistics'):
+      c.pop(key, None)
+    out.append(c)
   # a low rho_max: designs whose groups correlate better than the planning bound need LESS than the optimistic budget of
   # their treatment group, so the per-design lower budget bound is the only thing that rejects them
   for j in range(common.sz(tier, 8, 60)):
